@@ -24,7 +24,7 @@ LOCAL_KM = ["vi-opp", "vi-visual", "menu-select"]
 
 def model_check(rep, tier, wd):
     prepare_spec_dir(wd)
-    for t in (1, 2, 3, 4):
+    for t in (1, 2, 3, 4, 5):
         cfg = "MC_KeyDispatch_T%d.cfg" % t
         if tier == "thorough":
             open(os.path.join(wd, "MC_KeyDispatch_T%d_t.cfg" % t), "w").write(open(os.path.join(wd, cfg)).read().replace("In4", "In5"))
